@@ -830,7 +830,49 @@ def check_memo(program, rep):
     rep.floor('C03.tables', 'query methods of the dispatcher', n, 2)
 
 
+def check_identity(program, rep):
+    """Each registered handler is one listener.  A plain `weakref.ref` hashes
+    and compares like its (live) referent: two DISTINCT handlers that are
+    equal - instances of a value-equality class, e.g. a frozen dataclass
+    decorated with @event_handler - give equal references, so the second
+    registration finds key and set elements already present and disappears:
+    that handler is never called, is_handler() answers for both, and removing
+    one removes "both".  An identity-comparing reference (a subclass of
+    weakref.ref defining __eq__ / __hash__) or an id() key is what the
+    statement needs."""
+    disp = evrules.dispatcher_class(program)
+    f = program.method('EventDispatcher', 'add_handler', inherited=False)
+    refs = [n for n in ast.walk(f.node) if isinstance(n, ast.Call)
+            and (dotted(n.func) or '').split('.')[-1] in ('ref', 'WeakMethod')
+            and (dotted(n.func) or '').startswith(('weakref.', 'ref'))]
+    keyed = [n for n in refs if dotted(n.func) in ('weakref.ref', 'ref')]
+    if not refs:
+        own = [n for n in ast.walk(f.node) if isinstance(n, ast.Call)
+               and program.lookup_class(f.module, dotted(n.func) or '')
+               is not None and any('ref' in b for b in program.lookup_class(
+                   f.module, dotted(n.func)).ext_bases)]
+        if own and '__eq__' in program.lookup_class(
+                f.module, dotted(own[0].func)).methods:
+            rep.ok('C03.identity', f.where, own[0],
+                   'listeners are keyed by a reference class that defines '
+                   'its own equality', line=own[0].lineno)
+        else:
+            rep.inconclusive('C03.identity', f.where, f.node.name,
+                             'the key under which a handler is registered '
+                             'was not recognised')
+        return
+    rep.check(not keyed, 'C03.identity', f.where,
+              keyed[0] if keyed else refs[0],
+              'handlers are told apart by identity',
+              'handlers are filed under a plain weakref.ref, which hashes and '
+              'compares like its referent: a second handler EQUAL to a '
+              'registered one (value-equality class) is never called, and '
+              'removing either removes both',
+              line=(keyed or refs)[0].lineno)
+
+
 def run(program, rep, tier):
+    check_identity(program, rep)
     check_fresh_sets(program, rep)
     check_memo(program, rep)
     evrules.delivery_sites(program, rep, 'C03', {'deliver', 'snapshot',
